@@ -176,6 +176,7 @@ func hasProp(props []string, p string) bool {
 }
 
 type Checker struct {
+	relX *Exec
 	P    *Program
 	C    *Contracts
 	Eff  *Effects
@@ -229,10 +230,13 @@ func (ck *Checker) collect() {
 				}
 			}
 		}
+		fn := ck.P.Lookup(name)
+		if !relevant && fn != nil && ck.prop != "C06" {
+			relevant = ck.indirectlyRelevant(fn, fc)
+		}
 		if !relevant && ck.prop != "C06" {
 			continue
 		}
-		fn := ck.P.Lookup(name)
 		if fn == nil {
 			ck.toolErrs = append(ck.toolErrs, fmt.Sprintf("function under contract not found in the package: %s (%s)", name, fc.Where))
 			continue
@@ -711,4 +715,132 @@ func cmdLocals(args []string) {
 	os.WriteFile(filepath.Join(repo, "contracts_zz_locals_verif.go"), []byte(fmt.Sprintf(hdr, "bcl", "")+out[""].String()), 0o644)
 	os.WriteFile(filepath.Join(repo, "cmd/bcl/contracts_zz_locals_verif.go"), []byte(fmt.Sprintf(hdr, "main", "//@ pkg main\n")+out["main"].String()), 0o644)
 	fmt.Println("written")
+}
+
+// indirectlyRelevant: obligations tagged with the property can arise inside fn although none of fn's own
+// clauses carries the tag: invariants of its parameter types, preconditions / parameter invariants of the
+// functions it calls or starts, slot and interface-method contracts, channel promises.
+func (ck *Checker) indirectlyRelevant(fn *ssa.Function, fc *FuncContract) bool {
+	if ck.relX == nil {
+		ck.relX = NewExec(ck.P, ck.C, fc.Mode)
+	}
+	x := ck.relX
+	invsOf := func(f *ssa.Function, c *FuncContract) bool {
+		for _, inv := range ck.C.Invs {
+			if c != nil && (c.NoInv[inv.Name] || c.NoInv["*"]) {
+				continue
+			}
+			if !hasProp(inv.Props, ck.prop) {
+				continue
+			}
+			for _, p := range f.Params {
+				if x.typeMatches(p.Type(), inv.Type) {
+					return true
+				}
+			}
+		}
+		return false
+	}
+	if invsOf(fn, fc) {
+		return true
+	}
+	clauseHas := func(c *FuncContract) bool {
+		if c == nil {
+			return false
+		}
+		for _, r := range c.Requires {
+			if hasProp(r.Props, ck.prop) || (len(r.Props) == 0 && hasProp(c.Props, ck.prop)) {
+				return true
+			}
+		}
+		return false
+	}
+	dynamic := false
+	var visit func(f *ssa.Function, depth int) bool
+	seen := map[*ssa.Function]bool{}
+	visit = func(f *ssa.Function, depth int) bool {
+		if seen[f] || depth > 3 {
+			return false
+		}
+		seen[f] = true
+		for _, b := range f.Blocks {
+			for _, ins := range b.Instrs {
+				switch i := ins.(type) {
+				case *ssa.Send, *ssa.Select:
+					for _, ofc := range ck.C.Funcs {
+						for _, pr := range ofc.Promises {
+							if hasProp(pr.Props, ck.prop) {
+								return true
+							}
+						}
+					}
+				case *ssa.UnOp:
+					if i.Op.String() == "<-" {
+						for _, ofc := range ck.C.Funcs {
+							for _, pr := range ofc.Promises {
+								if hasProp(pr.Props, ck.prop) {
+									return true
+								}
+							}
+						}
+					}
+				}
+				ci, ok := ins.(ssa.CallInstruction)
+				if !ok {
+					continue
+				}
+				cc := ci.Common()
+				if cc.IsInvoke() {
+					dynamic = true
+					continue
+				}
+				sc := cc.StaticCallee()
+				if sc == nil {
+					if mc, ok := cc.Value.(*ssa.MakeClosure); ok {
+						sc, _ = mc.Fn.(*ssa.Function)
+					}
+				}
+				if sc == nil {
+					if _, isB := cc.Value.(*ssa.Builtin); !isB {
+						dynamic = true
+					}
+					continue
+				}
+				cname := ck.P.FuncName(sc)
+				cfc := ck.C.Funcs[cname]
+				if cfc == nil {
+					if a := ck.P.ClosureAlias(sc); a != "" {
+						cfc = ck.C.Funcs[a]
+					}
+				}
+				if cfc != nil {
+					if clauseHas(cfc) || (sc.Blocks != nil && invsOf(sc, cfc)) {
+						return true
+					}
+				} else if sc.Blocks != nil && ck.P.InVerifiedPkg(sc) {
+					// contract-less helper: inlined, look inside
+					if visit(sc, depth+1) {
+						return true
+					}
+				}
+			}
+		}
+		return false
+	}
+	if visit(fn, 0) {
+		return true
+	}
+	if dynamic {
+		for _, sc := range ck.C.Slots {
+			if clauseHas(sc) {
+				return true
+			}
+		}
+		for _, ofc := range ck.C.Funcs {
+			if ofc.Extern && strings.HasPrefix(ofc.Name, "(") && clauseHas(ofc) {
+				return true
+			}
+		}
+	}
+	return false
 }
